@@ -274,6 +274,9 @@ def units_for(prop, tier):
     if prop in ("C28", "C29"):
         # the two subclasses the property names (HistoricalScheduler, TestScheduler.schedule_absolute)
         us.append({"runner": "vtsub", "prop": prop, "id": "reactivex/scheduler/historicalscheduler.py::HistoricalScheduler+TestScheduler.schedule_absolute"})
+    if prop in ("C28", "C29", "C30", "C31", "C33", "C34", "C35"):
+        # a new scheduler IS in the idle state the scheduler contracts start from (constructors)
+        us.append({"runner": "schedctor", "prop": prop, "id": "reactivex/scheduler/*::__init__"})
     if prop in ("C28", "C29", "C30", "C31", "C33", "C34", "C35", "C42"):
         # ... and what invoking / cancelling a scheduled item means (Scheduler.invoke_action, ScheduledItem)
         us.append({"runner": "schedbase", "prop": prop, "id": "reactivex/scheduler/scheduler.py::Scheduler.invoke_action+ScheduledItem"})
